@@ -92,14 +92,16 @@ REQUIRED_REACH = ["fraction", "population_counts", "population_counts_moe", "lin
                       "class:shape=%s" % s[0] for s in SHAPES]
 BATCH = 40
 RULE = RULE + corpus.RULE_SUFFIX + w4.RULE_SUFFIX
-REQUIRED_REACH = list(REQUIRED_REACH) + ["class:corpus", "class:w4"]
+REQUIRED_REACH = list(REQUIRED_REACH) + ["class:corpus", "class:w4", "filtercols_population", "class:augmented"]
 TECHNIQUE = TECHNIQUE + corpus.TECHNIQUE_SUFFIX
 
 
 def units(tier, seed):
     n = 24 * 25 if tier == "quick" else 20000
     # W1 synthetic surveys, then W3: the fixture corpus under the intrinsic relations
-    return [{"i": i, "seed": seed} for i in range(n)] + corpus.units(tier, seed) + w4.units(tier, seed)
+    fc = [{"fc": k, "seed": seed} for k in range(80 if tier == "quick" else 3000)]
+    return [{"i": i, "seed": seed} for i in range(n)] + fc + corpus.units(tier, seed) + \
+        w4.units(tier, seed)
 
 
 def make_case(unit):
@@ -107,6 +109,9 @@ def make_case(unit):
         return corpus.make_case(ID, unit)
     if "w4" in unit:
         return w4.make_case(ID, unit)
+    if "fc" in unit:
+        from .. import filtercols
+        return filtercols.make_case(gen.G("C17/fc/%s/%s" % (unit["seed"], unit["fc"])), "C17")
     i = unit["i"]
     g = gen.G("C17/%s/%s" % (unit["seed"], i))
     shape = SHAPES[i % len(SHAPES)]
@@ -146,6 +151,9 @@ def check_case(case):
         return corpus.check_case(ID, case)
     if case.get("w4"):
         return w4.check_case(ID, case)
+    if case.get("mode") == "filtercols":
+        from .. import filtercols
+        return filtercols.check(case, ID)
     res = CaseResult()
     shape = [s for s in SHAPES if s[0] == case["shape"]][0]
     res.classes.append("shape=%s" % shape[0])
